@@ -40,9 +40,10 @@ const (
 	DTick
 	DLag // macro: member A dies, the keys are written through the others, every live member compacts, A starts again
 	DJoinLate // the member left out at formation joins: allocators extend the under-replicated partitions they lead by it
+	DKillDuring // member A dies N ticks into a write of Key that entered through member Via (a crash at an instant of the write)
 )
 
-var dNames = []string{"insert", "update", "remove", "batchInsert", "batchRemove", "kill", "start", "restartAll", "snapshot", "read", "tick", "lag", "joinLate"}
+var dNames = []string{"insert", "update", "remove", "batchInsert", "batchRemove", "kill", "start", "restartAll", "snapshot", "read", "tick", "lag", "joinLate", "killDuringWrite"}
 
 type DStep struct {
 	K    int   `json:"k"`
@@ -72,6 +73,8 @@ func (c DCase) String() string {
 			p = append(p, fmt.Sprintf("%s(%v via %d)", dNames[s.K], s.Keys, s.Via))
 		case s.K == DLag:
 			p = append(p, fmt.Sprintf("lag(%d misses %v)", s.A, s.Keys))
+		case s.K == DKillDuring:
+			p = append(p, fmt.Sprintf("killDuringWrite(%d dies %d ticks into a write of %d via %d)", s.A, s.N, s.Key, s.Via))
 		case s.K == DKill || s.K == DSnapshot:
 			p = append(p, fmt.Sprintf("%s(%d)", dNames[s.K], s.A))
 		default:
@@ -92,11 +95,14 @@ func genDCase(t *rapid.T) DCase {
 	}
 	step := rapid.Custom(func(t *rapid.T) DStep {
 		k := rapid.SampledFrom([]int{DInsert, DInsert, DInsert, DInsert, DInsert, DUpdate, DUpdate, DRemove, DRemove, DBatchInsert, DBatchInsert, DBatchRemove,
-			DKill, DKill, DStart, DStart, DRestartAll, DSnapshot, DSnapshot, DRead, DTick, DLag, DJoinLate}).Draw(t, "k")
+			DKill, DKill, DStart, DStart, DRestartAll, DSnapshot, DSnapshot, DRead, DTick, DLag, DJoinLate, DKillDuring, DKillDuring}).Draw(t, "k")
 		s := DStep{K: k, Via: rapid.IntRange(0, c.Members-1).Draw(t, "via"), A: rapid.IntRange(0, c.Members-1).Draw(t, "a")}
 		switch k {
 		case DInsert, DUpdate, DRemove:
 			s.Key = rapid.IntRange(0, dKeys-1).Draw(t, "key")
+		case DKillDuring:
+			s.Key = rapid.IntRange(0, dKeys-1).Draw(t, "key")
+			s.N = rapid.IntRange(0, 6).Draw(t, "ticks")
 		case DBatchInsert, DBatchRemove:
 			s.Keys = rapid.SliceOfNDistinct(rapid.IntRange(0, dKeys-1), 1, 4, rapid.ID[int]).Draw(t, "keys")
 		case DLag:
@@ -505,6 +511,78 @@ func runDCluster(c DCase, o *pbt.Obs) *pbt.Failure {
 					return f
 				}
 			}
+		case DKillDuring:
+			a := s.A % c.Members
+			live, members := 0, 0
+			for i := 0; i < c.Members; i++ {
+				if up(i) {
+					live++
+				}
+				if member(i) {
+					members++
+				}
+			}
+			via := pickVia(s.Via)
+			ds := cl.Dataset(via, dsId)
+			if !up(a) || live < members || ds == nil {
+				continue
+			}
+			// an insert if the key is absent by the acknowledged history, else an update
+			insert := !m.st[s.Key].present
+			kind := DUpdate
+			if insert {
+				kind = DInsert
+			}
+			errc := make(chan error, 1)
+			go func() {
+				ctx, cancel := context.WithTimeout(context.Background(), 250*time.Millisecond)
+				defer cancel()
+				if insert {
+					errc <- ds.Insert(ctx, dKey(s.Key), vec(s.Key, ver), nil)
+				} else {
+					errc <- ds.Update(ctx, dKey(s.Key), vec(s.Key, ver), nil)
+				}
+			}()
+			cl.Tick(s.N)
+			if !cl.Kill(a) {
+				o.Inconclusive("killed-node-did-not-stop")
+				return nil
+			}
+			o.Label("member-killed-during-a-write")
+			if ackedAtKill < 0 {
+				ackedAtKill = acked
+			}
+			var werr error
+			returned := false
+			for r := 0; r < 8000 && !returned; r++ {
+				select {
+				case werr = <-errc:
+					returned = true
+				default:
+					cl.Tick(1)
+					time.Sleep(100 * time.Microsecond)
+				}
+			}
+			if !returned {
+				o.Inconclusive("write-did-not-return")
+				return nil
+			}
+			if werr == nil {
+				o.Label("write-acknowledged-although-a-member-died-during-it")
+			}
+			if f := verdict(s.Key, kind, werr, ver, where); f != nil {
+				return f
+			}
+			if live <= 1 { // nobody left: the member comes back at once
+				if err := cl.Start(a, a == 0); err != nil {
+					return pbt.Failf("C03:restart-fails", "%s: member %d does not start over its store: %v; history: %s", where, a, err, c.String())
+				}
+				ackedAtKill = -1
+				cl.ElectZero(1500)
+				if f := judge(where); f != nil {
+					return f
+				}
+			}
 		case DKill:
 			a := s.A % c.Members
 			live, members := 0, 0
@@ -653,7 +731,7 @@ func runDCluster(c DCase, o *pbt.Obs) *pbt.Failure {
 func TestAckedWritesOnCluster(t *testing.T) {
 	pbt.Run(t, pbt.Prop[DCase]{
 		ID: "C03", Name: "TestAckedWritesOnCluster",
-		Rule:    "rapid-generated histories on 1-3 simulated nodes wired like server.go (package ctl: real zero groups, shared group, NodesManager, allocator, DatasetManager, partition raft groups loaded by the allocator): a dataset with 1-3 partitions and replication factor 1-3 is created through the DatasetManager API; single and batch writes over 10 keys enter through the Dataset API of any live member (proxied through in-memory DataManager clients); members are killed between two writes and started again over their stores, one at a time (the others keep writing) or all at once; partition groups snapshot and compact; oracle: a reference map of the writes that ended with a verdict (acknowledged, or refused as existing/not found - a refusal must agree with the map); whenever all members are up and every replica has applied its leader's commit index, every hosting member's index holds exactly the map's value for every key without an abandoned write, and Len and a k=64 search through every member return exactly the live keys; non-trivial = >=3 acknowledged writes, >=1 judged read and a member restart; distinct = distinct case JSON",
+		Rule:    "rapid-generated histories on 1-3 simulated nodes wired like server.go (package ctl: real zero groups, shared group, NodesManager, allocator, DatasetManager, partition raft groups loaded by the allocator): a dataset with 1-3 partitions and replication factor 1-3 is created through the DatasetManager API; single and batch writes over 10 keys enter through the Dataset API of any live member (proxied through in-memory DataManager clients); members are killed between two writes or a generated number of ticks into a write, and started again over their stores, one at a time (the others keep writing) or all at once; partition groups snapshot and compact; oracle: a reference map of the writes that ended with a verdict (acknowledged, or refused as existing/not found - a refusal must agree with the map); whenever all members are up and every replica has applied its leader's commit index, every hosting member's index holds exactly the map's value for every key without an abandoned write, and Len and a k=64 search through every member return exactly the live keys; non-trivial = >=3 acknowledged writes, >=1 judged read and a member restart; distinct = distinct case JSON",
 		Gen:     genDCase,
 		Check:   checkDCluster,
 		Journal: true,
